@@ -178,11 +178,26 @@ def run_case(case, opts):
             if pc is not None:
                 ev.append({"c": "IsApplicable", "d": "d", "u": "p", "act": pc[0], "args": pc[1], "s": sh,
                            "out": pylib.observe_applicable(dom, pc[0], pc[1], prob.objects, states[sh])})
+            # a twin made just before the edit: afterwards the two differ by exactly that edit, and == is asked both ways
+            twin = fresh("c")
+            try:
+                states[twin] = states[sh].copy()
+                ev.append({"c": "CopyState", "s": sh, "h": twin, "out": {"st": pylib.project_state(states[twin])}})
+            except Exception as e:  # noqa: BLE001
+                ev.append({"c": "CopyState", "s": sh, "h": twin, "out": {"exc": pylib.exc_name(e)}})
+                twin = None
             edit = pylib.edit_state(rng, dom, states[sh], gen_core.ground_atoms(objs))
             if edit is None:
                 continue
             edit.update({"c": "EditState", "s": sh})
             ev.append(edit)
+            if twin is not None:
+                for a, b in ((sh, twin), (twin, sh)):
+                    try:
+                        out = {"val": bool(states[a] == states[b])}
+                    except Exception as e:  # noqa: BLE001
+                        out = {"exc": pylib.exc_name(e)}
+                    ev.append({"c": "StateEq", "a": a, "b": b, "out": out})
             if pc is not None:
                 ev.append({"c": "IsApplicable", "d": "d", "u": "p", "act": pc[0], "args": pc[1], "s": sh,
                            "out": pylib.observe_applicable(dom, pc[0], pc[1], prob.objects, states[sh])})
